@@ -3,7 +3,7 @@ package props
 // C15 — Concurrent requests are isolated, race-free and get unique message IDs.
 //
 // A generated plan (N clients, each with its own service provider, user, Host header, RelayState
-// and request IDs, all carrying the session token zz<i>zz) is executed by real goroutines against
+// and request IDs, all carrying the session token zzsess<i>sesszz) is executed by real goroutines against
 // ONE provider in a binary built with -race. Schedules are sampled by the Go scheduler, not
 // enumerated: this is the weakest check of the set and its evidence says so.
 
@@ -29,7 +29,7 @@ import (
 	"verif/harness/xt"
 )
 
-const c15Rule = "rapid generates plans: N in {2..64} clients, each a sequence of 3..12 operations drawn from {sso, sso+login+callback (POST or Redirect delivery), logout, attribute query, metadata, certificate} for its own session (own SP, user, Host header under a host-derived issuer, RelayState, request IDs - every such string carries the token zz<i>zz), with generated yield points; every second plan is preceded by a storm (4..40 further sessions doing callbacks on completed requests and one other request each, concurrently, while one or two storage operations fail on every call - signing key that does not match its certificate, key errors, user lookup failures, ...), after which the storage is repaired; all clients start behind a barrier and run as goroutines against one provider in a -race build, under GOMAXPROCS drawn from {2, 4, 16}. Oracle: (1) the race detector stays silent (a report fails the binary and is turned into a violation by the driver); (2) every reply is checked against its own session with the sequential oracles of C03 / C13 / C12 / C11 (request ID, consumer URL, audience, issuer host, user attributes, RelayState) and every decoded layer of it is scanned for tokens of any other session; (3) all response, assertion, logout-response and metadata IDs collected from all goroutines are pairwise distinct NCNames; (4) the provider keeps serving: if no request at all has been answered for 15 s and every goroutine inside zitadel/saml is parked on a channel or lock in two stack dumps 3 s apart, the requests are blocked for good (a merely slow run is inconclusive, never a violation). Non-trivial: at least two requests of different sessions overlapped in time (entry/exit stamps). Distinct by plan shape. Interleavings are sampled, not enumerated."
+const c15Rule = "rapid generates plans: N in {2..64} clients, each a sequence of 3..12 operations drawn from {sso, sso+login+callback (POST or Redirect delivery), logout, attribute query, metadata, certificate} for its own session (own SP, user, Host header under a host-derived issuer, RelayState, request IDs - every such string carries the token zzsess<i>sesszz), with generated yield points; every second plan is preceded by a storm (4..40 further sessions doing callbacks on completed requests and one other request each, concurrently, while one or two storage operations fail on every call - signing key that does not match its certificate, key errors, user lookup failures, ...), after which the storage is repaired; all clients start behind a barrier and run as goroutines against one provider in a -race build, under GOMAXPROCS drawn from {2, 4, 16}. Oracle: (1) the race detector stays silent (a report fails the binary and is turned into a violation by the driver); (2) every reply is checked against its own session with the sequential oracles of C03 / C13 / C12 / C11 (request ID, consumer URL, audience, issuer host, user attributes, RelayState) and every decoded layer of it is scanned for tokens of any other session; (3) all response, assertion, logout-response and metadata IDs collected from all goroutines are pairwise distinct NCNames; (4) the provider keeps serving: if no request at all has been answered for 15 s and every goroutine inside zitadel/saml is parked on a channel or lock in two stack dumps 3 s apart, the requests are blocked for good (a merely slow run is inconclusive, never a violation). Non-trivial: at least two requests of different sessions overlapped in time (entry/exit stamps). Distinct by plan shape. Interleavings are sampled, not enumerated."
 
 type C15Case struct {
 	N      int        `json:"clients"`
@@ -75,7 +75,10 @@ var c15StormFaults = []world.Fault{
 	{Op: "GetEntityIDByAppID", Kind: "error"}, {Op: "AuthRequestByID", Kind: "error"}, {Op: "GetEntityByID", Kind: "error"}, {Op: "CreateAuthRequest", Kind: "error"},
 }
 
-func c15Tok(i int) string { return fmt.Sprintf("zz%dzz", i) }
+// c15Tok is the token every string of session i carries. It is long on purpose: replies contain kilobytes of base64 (signature
+// values, certificates), and a short token such as zz91zz turns up in random base64 often enough to raise a false alarm in a
+// run of some ten thousand replies (it did, once, in the thorough tier).
+func c15Tok(i int) string { return fmt.Sprintf("zzsess%dsesszz", i) }
 
 func c15Spec(n int) world.Spec {
 	spec := world.Spec{IdP: world.IdPConfig{IssuerMode: "host", IssuerPath: "/saml", SignatureAlgorithm: world.AlgRSASHA256, MetadataSigAlg: world.AlgRSASHA256}}
@@ -128,7 +131,7 @@ func c15VerifyAssertion(cc *c15Collect, i int, op string, d *obs.Decoded, a *obs
 	}
 }
 
-var reTok = regexp.MustCompile(`zz(\d+)zz`)
+var reTok = regexp.MustCompile(`zzsess(\d+)sesszz`)
 
 type c15Collect struct {
 	mu       sync.Mutex
